@@ -64,7 +64,9 @@ class Check(CheckBase):
     level = "exploration"
     title = "Every exported file is a structurally valid RIFF/WAVE PCM file"
     rule = ("(i) every WAV written by re-running the structural sweeps (AKAI structure sweep of C01, Roland window+header "
-            "sweeps of C02 -- all loop modes --, CDDA file cases of C03) walked by an independent RIFF walker + stdlib wave; "
+            "sweeps of C02 -- all loop modes --, CDDA file cases of C03) walked by an independent RIFF walker + stdlib wave, "
+            "each AKAI/Roland case exported a second time into a destination that already holds longer files under the same "
+            "names; "
             "(ii) narrow seam SampleHeader parse -> generalized -> WAV builder: root key x semitone x cents bytes -- quick: "
             "the three 256x256 faces through 5 boundary values of the third byte, thorough: the full 256^3 product -- mono, "
             "and the faces again as L/R stereo pairs; loop table: loop type {0..4} x (loop_at, length, duration) corner values "
@@ -149,6 +151,31 @@ class Check(CheckBase):
             img = R.build_roland(c02.norm_model(c["model"]))[0]
         res = tree.full_run(img, cpu_s=30.0, ls_paths=())
         case = dict(c)
+        if res["status"] == "ok" and res["files"]:
+            # second pass: the destination already holds LONGER files under the same names (an earlier export of
+            # another image); what is reported must be well-formed all the same
+            import os
+            from mcv.engine.core import scratch_dir, guarded
+            with scratch_dir("c04p") as d:
+                dest = os.path.join(d, "dest")
+                for p, b in res["files"].items():
+                    os.makedirs(os.path.dirname(os.path.join(dest, p)), exist_ok=True)
+                    with open(os.path.join(dest, p), "wb") as f:
+                        f.write(b + b"\xAA" * 5000)
+                st, val = guarded(lambda: tree.export(tree.open_image(img), dest), 30.0)
+                if st == "ok":
+                    res2 = {"files": val[1], "reported": val[2]}
+                    for p in res2["reported"]:
+                        b = res2["files"].get(p)
+                        w = riff.validate(b) if b is not None else None
+                        if w is None or w.errors:
+                            rep.case(dict(case, prefilled=True), ok=False, klass="invalid-wav-over-existing-file", nontrivial=True,
+                                     sig=f"{c['origin']}:invalid-wav-over-existing-file", detail={"path": p, "errors": (w.errors[:2] if w else ["missing"])})
+                            return
+                else:
+                    rep.case(dict(case, prefilled=True), ok=False, klass="export-over-existing-" + st, nontrivial=True,
+                             sig=f"{c['origin']}:export-over-existing-{st}", detail={"observed": repr(val)[:200]})
+                    return
         if res["status"] != "ok":
             rep.case(case, ok=False, klass="export-" + res["status"], nontrivial=True, sig=f"{c['origin']}:export-{res['status']}",
                      detail={"observed": repr(res["exc"])[:200]})
